@@ -32,6 +32,8 @@
  *     socket  y ok | n EMFILE          so_error y 0 | r ECONNREFUSED | t ETIMEDOUT
  *     write   a all | o one byte | n nothing | e EPIPE
  *     read    g nothing (GO_ON) | d headers (status 200) + data (GO_ON) | f EOF (FINISHED) | x error
+ *             D like d, and the response head has been sent on to the client (streaming)
+ *             l like d, and the backend announced more body bytes than it has sent
  *     env     y ok | E 400+HANDLER_ERROR | F 400+HANDLER_FINISHED
  *     exhausted: connect p, socket y, so_error y, write a, read f, env y
  * results: A<host>|A- (arrival choice), D<h>.<p> (connect() dialled), <slot>=wait, <slot>=fin<status>[s][t][h]
@@ -143,7 +145,14 @@ static handler_t ltv_http_response_read(request_st *r, http_response_opts *opts,
     UNUSED(opts); UNUSED(b); UNUSED(fdn);
     switch (q_pop(&q_rd, 'f')) {
       case 'g': return HANDLER_GO_ON;
+      case 'D': /* ... and the response head has gone out to the client (streaming) */
+        r->resp_header_len = 1;
+        goto headers;
+      case 'l': /* ... and the backend announced more body bytes than it has sent so far */
+        r->resp_body_scratchpad = 1;
+        __attribute_fallthrough__
       case 'd': /* response headers complete (status line parsed), some body data */
+      headers:
         if (!r->resp_body_started) r->http_status = 200;
         r->resp_body_started = 1; r->write_queue.bytes_in += 1; return HANDLER_GO_ON;
       case 'x': return HANDLER_ERROR;
@@ -331,11 +340,12 @@ static void dump(void) {
             for (gw_proc *pr = c->host->first; pr; pr = pr->next, ++k) if (pr == c->proc) pi = k;
         }
         int evn = c->fdn ? c->fdn->events : 0;
-        res_add("S%d.%d.%d.%d.%d.%d.%d.%lld.%lld.%lld.%lld.%d;", hi, pi, (int)c->state, c->reconnects,
+        res_add("S%d.%d.%d.%d.%d.%d.%d.%lld.%lld.%lld.%lld.%d.%d;", hi, pi, (int)c->state, c->reconnects,
                 c->fd >= 0, (evn & FDEVENT_IN ? 1 : 0) | (evn & FDEVENT_OUT ? 2 : 0)
                           | (evn & FDEVENT_RDHUP ? 8 : 0),
                 (int)rq[s].resp_body_started, (long long)chunkqueue_length(&c->wb),
-                (long long)c->wb.bytes_out, (long long)c->read_ts, (long long)c->write_ts, ndial[s]);
+                (long long)c->wb.bytes_out, (long long)c->read_ts, (long long)c->write_ts, ndial[s],
+                (rq[s].resp_header_len ? 1 : 0) | (rq[s].resp_body_scratchpad > 0 ? 2 : 0));
     }
     res_add("G%d,F%d,L%d,N%d,T%lld",
             *array_get_int_ptr(&plugin_stats, CONST_STR_LEN("gw.active-requests")),
